@@ -45,6 +45,7 @@ def run(ctx):
     run.assumptions = ["callback comparators passed to iter_lex_cmp/iter_in are themselves in the checked comparator set"]
     ctx.do(rule_producers_handlers)
     ctx.do(rule_type_guard)
+    ctx.do(rule_value_operators_only)
     ctx.do(rule_comparator_mirror)
     ctx.do(rule_pipeline)
     ctx.do(rule_same_decider)
@@ -291,6 +292,50 @@ def rule_type_guard(ctx):
                   "[%s:value = 1] or ... IN (...) makes the equivalence test fail with AttributeError" % fname.replace("_addr", "-addr"),
                   file=rel, line=bad.lineno if bad is not None else fi.node.lineno, function=fi.qualname,
                   expected="isinstance(comp_expr.rhs, StringConstant) dominating the use", found=short(bad) if bad is not None else None)
+
+
+def rule_value_operators_only(ctx):
+    """The special-value canonicalisations (CIDR masking, inet_aton normalisation, lower-casing registry keys) rewrite the
+    constant as a VALUE.  Under MATCHES the constant is a regular expression and under LIKE a template: rewriting '127.1' to
+    '127.0.0.1' or '\\S' to '\\s' changes what they match -- two patterns of different meaning compare equivalent.  The
+    dispatch must exclude both operators."""
+    run = ctx.run
+    prog = ctx.prog
+    R = "C09.value-operators-only"
+    fi = prog.cls(TC + "::SpecialValueCanonicalization").methods.get("transform_comparison")
+    if fi is None:
+        raise AnalysisError("anchor missing: SpecialValueCanonicalization.transform_comparison")
+    p = fi.params[1]
+    calls = [c for c in body_walk(fi.node) if isinstance(c, ast.Call) and call_simple_name(c) in ("windows_reg_key", "ipv4_addr", "ipv6_addr")]
+    if len(calls) < 3:
+        raise AnalysisError("SpecialValueCanonicalization: dispatch to the three special functions not found")
+    g = cfg_of(fi)
+    dom = g.dominators()
+
+    def excludes(n):
+        if n.kind != "test" or not isinstance(n.ast, ast.If):
+            return False
+        t = norm(n.ast.test)
+        return ("%s.operator" % p) in t and "'MATCHES'" in t and "'LIKE'" in t
+    bad = []
+    for c in calls:
+        sn = g.stmt_node_containing(c)
+        guards = [n for n in g.nodes if excludes(n) and n in dom[sn]]
+        ok = False
+        for gn in guards:
+            pos_in = " in " in norm(gn.ast.test) and " not in " not in norm(gn.ast.test)
+            in_body = any(c is x or c in list(ast.walk(x)) for x in gn.ast.body)
+            exits = gn.ast.body and isinstance(gn.ast.body[-1], (ast.Return, ast.Raise))
+            # `if op in (MATCHES, LIKE): return` before the dispatch, or the dispatch inside `if op not in (...)`
+            if (pos_in and exits and not in_body) or (not pos_in and in_body):
+                ok = True
+        if not ok:
+            bad.append(c)
+    run.check(not bad, R, key(fi.module.relpath, fi.qualname, "not-under-MATCHES-or-LIKE"),
+              "special-value canonicalisation is applied whatever the operator: [ipv4-addr:value MATCHES '127.1'] is reported "
+              "equivalent to MATCHES '127.0.0.1' (the first regex matches 127.1.2.3, the second does not); a registry-key regex "
+              "'^hklm.\\\\S+$' is lower-cased into '^hklm.\\\\s+$'", file=fi.module.relpath, line=fi.node.lineno, function=fi.qualname,
+              expected="if ast.operator in ('MATCHES', 'LIKE'): return ast, False   (before the dispatch)", found=[short(c) for c in bad])
 
 
 COMPARATORS = [
